@@ -37,9 +37,9 @@ PROPS["C13"] = coop("TestProp", R + ">=2 consumers compete on one adapter, or a 
 PROPS["C15"] = coop("TestProp", R + ">=2 populated queues of >=2 different kinds are bound (base schedule; populations and submission order are generated)")
 PROPS["C17"] = coop("TestProp", R + "an introspection sample overlaps an Add, or >=2 queue kinds are bound")
 PROPS["C18"] = coop("TestProp", R + "a TunePool or Restart happened, or idle expiry is configured")
-PROPS["C14"] = coop("TestProp", "all lifecycle call sequences up to length 3 (quick) / 5 (thorough) x 12 configuration variants are enumerated exhaustively on the base schedule, plus rapid-generated sequences up to length 30 with generated schedules; distinct = distinct event-history hash; non-trivial = the sequence visits >=3 distinct worker states", quick=(4, 2500), thorough=(16, 20000))
+PROPS["C14"] = coop("TestProp", "all lifecycle call sequences up to length 3 (quick) / 5 (thorough) x 16 configuration variants are enumerated exhaustively on the base schedule, plus rapid-generated sequences up to length 30 with generated schedules; distinct = distinct event-history hash; non-trivial = the sequence visits >=3 distinct worker states", quick=(4, 8000), thorough=(16, 20000))
 PROPS["C11"] = coop("TestProp", "rapid generates adapter kind x program x schedule x fault plan; each generated case is run to completion and then cut at EVERY adapter-call boundary 1..K (enumerated), each cut followed by a recovery episode (own schedule and fault plan); evaluations = episodes executed; non-trivial = some cut left >=1 delivery unacknowledged, or an Acknowledge was refused; distinct = distinct event-history hash of the full run", quick=(4, 600), thorough=(16, 5000), level="fault_enumeration")
-PROPS["C12"] = coop("TestProp", "two generated parts: (a) fidelity: payload type (11 Go types) x values (unicode/escapes/64-bit extremes/NaN/unencodable) x IDs x queue mode pushed through a recording adapter and compared with the harness's own JSON round trip; (b) bad entries (5 kinds) at generated positions among valid stored entries, concurrency 1, generated schedule; non-trivial = a value/ID with non-ASCII/escape/extreme content or a rejected (unencodable) value, or >=1 bad entry among >=2 valid ones; distinct = distinct case", quick=(4, 4000), thorough=(16, 30000))
+PROPS["C12"] = coop("TestProp", "two generated parts: (a) fidelity: payload type (11 Go types) x values (unicode/escapes/64-bit extremes/NaN/unencodable) x IDs x queue mode pushed through a recording adapter and compared with the harness's own JSON round trip; (b) bad entries (7 kinds) at generated positions among valid stored entries, concurrency 1, generated schedule; non-trivial = a value/ID with non-ASCII/escape/extreme content or a rejected (unencodable) value, or >=1 bad entry among >=2 valid ones; distinct = distinct case", quick=(4, 4000), thorough=(16, 30000))
 
 PROPS["C04"] = coop("TestProp", "two parts. (a) queues: rapid-generated enqueue/dequeue/purge/close/values sequences with bursts across the 1024/1536/2304/... segment boundaries (thorough: past the 100Ki segment cap) and arbitrary int priorities, applied to internal/queues and to a slice / stable-sorted model (differential); (b) worker: generated programs x schedules with concurrency 1 (exact order) and n (prefix at quiescent points); distinct = distinct operation sequence / event-history hash; non-trivial = a queue longer than one segment, a tie between equal priorities, a purge followed by reuse, or >=3 jobs through a worker",
                     quick=(4, 4000), thorough=(16, 15000),
